@@ -73,6 +73,37 @@ func zipSemantics(z *zArchive, pol zipPolicy) []SemMut {
 			out = append(out, SemMut{Class: "rename-member", Site: role + ":" + m.Name + "->" + string(nn), Data: zipBuild(patched, clone(), opts), Assert: as, Why: why})
 		}
 	}
+	// shadow: a second member with the name of a payload member and other
+	// content, before and after the genuine one (in the body and in the central
+	// directory alike). Readers differ in which of two same-named entries they
+	// use; whichever it is, one of the two placements hands them the forged one.
+	for i, m := range base {
+		if pol.role(m.Name) != "payload" {
+			continue
+		}
+		c, err := z.content(m.From)
+		if err != nil {
+			continue
+		}
+		as, why := pol.replace(m.Name, "payload")
+		if !as {
+			continue
+		}
+		for _, where := range []string{"before", "after"} {
+			sh := zMember{Name: m.Name, Content: tweak(append([]byte{}, c...)), Deflate: m.From.Method == 8, ModTime: le.Uint16(src[m.From.LH.Off+10:]), ModDate: le.Uint16(src[m.From.LH.Off+12:])}
+			var ms []zMember
+			if where == "before" {
+				sh.CDRank = m.CDRank - 0.5
+				ms = append(append(clone()[:i:i], sh), base[i:]...)
+			} else {
+				sh.CDRank = m.CDRank + 0.5
+				ms = append(append(clone()[:i+1:i+1], sh), base[i+1:]...)
+			}
+			out = append(out, SemMut{Class: "shadow-member", Site: where + "-genuine:payload:" + m.Name, Data: zipBuild(src, ms, opts), Assert: true, KeyHint: "same-name-member-" + where + "-the-signed-one",
+				Why: "a second member with the name of a signed payload member and other content; " + why})
+		}
+		break // one payload member per artifact is enough for the class
+	}
 	// insert
 	for _, name := range pol.insertNames {
 		for _, where := range []string{"first", "last"} {
